@@ -9,6 +9,16 @@ CLAIMS = {
   note="VTA call graph over-approximates dynamic calls; stdlib and x/text are not analysed; guards are recognised as SSA comparisons of the counter with a bound",
   technique="static analysis: call-graph SCC inventory + CFG path rules (edge dominance, must-precede/must-follow) on go/ssa",
   ref="DESIGN.md §4 C01"),
+ "C02": dict(
+  text="Structural clauses of 'wrapping conserves every glyph': (R-GLYPHS) no function reachable from the LineWrapper entry points stores to a field of shaping.Glyph through shared storage (candidate, committed and input runs share glyph backing arrays); (R-ADV) every store to Glyph.XAdvance/YAdvance is followed on all paths by RecomputeAdvance/RecalculateAll, in the function or in every caller up to the exported API; (R-CUT) every run handed to the candidate line originates from the iterator, from cutRun or from processBreakOption. Two genuine R-GLYPHS findings on the pinned tree are listed as known findings. Coverage/contiguity/termination arithmetic is NOT decided.",
+  note="VTA call graph reachability; RunIterator implementations outside the module are not analysed",
+  technique="static analysis: who-may-write over call-graph reachability, CFG must-follow with propagation to callers, value-origin check on go/ssa",
+  ref="DESIGN.md §4 C02"),
+ "C03": dict(
+  text="Path rules on the wrapper's state machine, decided on every CFG path: (R-VALID) a candidate is cut and committed only on the accepted edge of breakOption.isValid / never on the breakInvalid edge; (R-NEVER) with BreakPolicy == Never (field not written in the region, P-FX) and the exhaustive switch over processBreakOption's constant results closed, the grapheme fallback is unreachable; (R-REQ) after a fitting mandatory candidate the line ends before any further candidate is requested, and every path from a fitting UAX#14 candidate to the next request tests the required flag. That candidates equal UAX opportunities, and the WhenNecessary law, are NOT decided.",
+  note="anchored on the functions the property names (processBreakOption, wrapNextLine, isValid, cutRun, nextWordBreak/nextGraphemeBreak); renaming them makes the check undecided, not failing",
+  technique="static analysis: CFG edge-dominance and gated reachability on go/ssa (assumed field value, callee return-constant sets)",
+  ref="DESIGN.md §4 C03"),
  "C06": dict(
   text="Two clauses of the segmentation property, decided statically: (history independence) with P-FX, Segmenter.Init writes every field that it or the line/grapheme/word iterators may read, and the rule cursor is a fresh local, so results cannot depend on earlier uses of the object; (one class per rune) the line, grapheme and word class tables are well-formed as unicode.Is requires, pairwise disjoint, and the two pre-filter tables equal the union of their families, for all 0x110000 code points. Agreement of the rule functions with UAX #29/#14 is NOT decided.",
   note="field-based effects; unicode.Is trusted; the UAX rule tables are not available in the sandbox",
@@ -19,6 +29,16 @@ CLAIMS = {
   note="field-based effects over the VTA call graph; x/text bidi.Paragraph.SetString trusted as a full reset",
   technique="static analysis: field-effect fixpoint + who-may-write check over call-graph reachability + constant evaluation of tables",
   ref="DESIGN.md §4 C07"),
+ "C08": dict(
+  text="Two clauses of the visual-order property: (R-OWN) only computeBidiOrdering and swapVisualOrder store Output.VisualIndex in package shaping, and swapVisualOrder's two stores are a transposition of the same two locations (so an ordering that is a permutation stays one); (R-ORDER) in postProcessLine every append to the line is followed on all paths by computeBidiOrdering and every read of VisualIndex is preceded by it. Agreement with rule L2 of UAX #9 for embedding levels is NOT decided: Output carries only the level parity, so the level-2 mis-ordering the property mentions is invisible to these rules.",
+  note="who-may-write by field identity; exchange recognised on SSA address expressions",
+  technique="static analysis: who-may-write check + CFG must-follow/must-precede on go/ssa",
+  ref="DESIGN.md §4 C08"),
+ "C12": dict(
+  text="Two clauses of geometric self-consistency: (R-ADV) every store to Glyph.XAdvance/YAdvance in package shaping is followed on all paths by RecomputeAdvance/RecalculateAll in the function or in every caller up to the exported API (Shape, AddWordSpacing, AddLetterSpacing, sideways, cutRun, postProcessLine), so Output.Advance tracks the glyphs; (R-SIDE) for a sideways input the buffer direction is assigned only after SwitchAxis, and Output.sideways precedes the font-extents read for out.Direction. Numeric identities (bounds, rotation, spacing amounts) are NOT decided.",
+  note="the recompute call is not tied to the same Output value (any RecomputeAdvance/RecalculateAll on the path counts)",
+  technique="static analysis: CFG must-follow with propagation to callers, must-precede under an assumed flag on go/ssa",
+  ref="DESIGN.md §4 C12"),
  "C13": dict(
   text="Structural necessary conditions of 'reusable objects never leak state', decided for the caches of the reusable objects: (R-KEY/fields) every leaf of the shape-plan cache key that shapePlan.init fills from an input not covered by the map key is read by shapePlan.equal (data/control dependence of each stored value on each parameter, through callees); (R-KEY/projection) the key of the shaper's font cache is not a strict projection of an argument that the constructor of the cached value captures; (R-INV) every function outside the cached computation that may write a field read by Face.glyphExtentsRaw resets the extents cache on all paths, up to the exported API. Reset completeness of scratch state (R-STATE) is reported separately in the evidence when built. Equality of results with a fresh object in general is not decided.",
   note="field-based effects (one abstract object per type), VTA call graph; dependence analysis is scoped to the key constructor and its callees; classification tables for exempt fields carry one-line reasons in sa/c13.go",
